@@ -148,6 +148,10 @@ package schedule
 // The number of tokens a composite has left: exact when every remaining part is known, -1 otherwise.
 //@ spec func compositeLeft(s *compositeSchedule) int = ite(len(s.scheds) == 1, leftOf[s.scheds[0]], ite(leftOf[s.scheds[0]] < 0 || s.leftAfter[0] < 0, -1, leftOf[s.scheds[0]] + s.leftAfter[0]))
 
+// The part list and the tokens-left table of a composite are only touched under its lock (startNext is called with it held).
+//@ guarded_by compositeSchedule.scheds rwMu
+//@ guarded_by compositeSchedule.leftAfter rwMu
+
 //@ func NewComposite
 //@ props C02 C12
 //@ requires forall(a, 0, len(scheds), forall(b, 0, len(scheds), imp(a != b, scheds[a] != scheds[b])))
@@ -169,6 +173,7 @@ package schedule
 //@ func (s *compositeSchedule) startNext
 //@ props C02 C12
 //@ requires wfComposite(s) && len(s.scheds) >= 2
+//@ requires [called-with-the-write-lock-held] held(s.rwMu) == 2
 //@ ensures [shifted] len(s.scheds) == old(len(s.scheds)) - 1 && forall(k, 0, len(s.scheds), s.scheds[k] == old(s.scheds)[k+1] && s.leftAfter[k] == old(s.leftAfter)[k+1])
 //@ ensures wfComposite(s)
 //@ at call s.scheds[0].Start assert [next-part-starts-at-the-finish-of-the-previous] arg(startAt) == currentFinishTime0
